@@ -721,6 +721,10 @@ def register(eng):
             return Agg(o.ty, o.variant, o.vidx, [Ref(lambda: o.fields[0], None, "err")])
         return none()
 
+    @model("Option::iter", "Option::iter_mut", "Option::into_iter", "Result::iter")
+    def _(eng, a, c):
+        return to_iter(eng, a[0] if isinstance(a[0], Ref) else ref_to_value(a[0]))
+
     @model("Option::transpose")
     def _(eng, a, c):
         o = opt(a[0])
@@ -917,7 +921,10 @@ def register(eng):
 
     def default_for(eng, c):
         t = strip_generics(getattr(eng, "_self_t", "") or "")
-        m = re.search(r"<([^<>]*(?:<[^<>]*>)?[^<>]*)>::\w+$|::<(.*)>", c)
+        m = re.match(r"(?:Option|Result)::<(.*)>::unwrap_or_default$", c.strip(), re.S)
+        if m:
+            from mirparse import split_top
+            t = strip_generics(split_top(m.group(1))[0])
         if t in ("i128", "u64", "i64", "usize", "u32", "u8", "i32", "u128"):
             return 0
         if t == "bool":
@@ -957,8 +964,11 @@ def register(eng):
             X, Y = eng.to_bv(x, w), eng.to_bv(y, w)
             lt = (X < Y) if sg else z3.ULT(X, Y)
             return ("sym", lt, X == Y)
-        kx, ky = sort_key(x), sort_key(y)
-        return (kx > ky) - (kx < ky)
+        try:
+            kx, ky = sort_key(x), sort_key(y)
+            return (kx > ky) - (kx < ky)
+        except Unmodelled:
+            return ("sym", eng.key_lt(eng, x, y), veq(eng, x, y))
 
     def cmp_result(eng, r, want):
         if isinstance(r, tuple):
@@ -1015,7 +1025,7 @@ def register(eng):
         return r
 
     @model("Deref::deref", "DerefMut::deref_mut", "AsRef::as_ref", "Borrow::borrow", "AsMut::as_mut", "String::as_str", "String::as_bytes",
-           "Vec::as_slice", "Vec::as_mut_slice", "str::as_bytes", "String::as_mut_str", "BorrowMut::borrow_mut")
+           "Vec::as_slice", "Vec::as_mut_slice", "slice::as_slice", "slice::as_mut_slice", "slice::as_ref", "str::as_bytes", "String::as_mut_str", "BorrowMut::borrow_mut")
     def _(eng, a, c):
         x = deref(a[0])
         if isinstance(x, StrM) and ("as_bytes" in c or "[u8]" in c.split(" as ")[-1]):
@@ -1235,6 +1245,41 @@ def register(eng):
     def _(eng, a, c):
         v = deref(a[0])
         sort_items(eng, v, lambda x: eng.call_callable(a[1], [ref_to_value(x)]))
+        return unit()
+
+    @model("slice::sort_by", "slice::sort_unstable_by", "Vec::sort_by")
+    def _(eng, a, c):
+        v = deref(a[0])
+        items = list(v.items)
+        order = []
+        for i in range(len(items)):
+            pos = len(order)
+            for j in range(len(order)):
+                o = deref(eng.call_callable(a[1], [ref_to_value(items[i]), ref_to_value(items[order[j]])]))
+                if o.variant == "Less":
+                    pos = j; break
+            order.insert(pos, i)
+        new = [items[i] for i in order]
+        if isinstance(v, SliceV):
+            v.vec.items[v.lo:v.hi] = new
+        else:
+            v.items[:] = new
+        return unit()
+
+    @model("slice::sort_unstable_by_key")
+    def _(eng, a, c):
+        v = deref(a[0])
+        sort_items(eng, v, lambda x: eng.call_callable(a[1], [ref_to_value(x)]))
+        return unit()
+
+    @model("slice::reverse", "Vec::reverse")
+    def _(eng, a, c):
+        v = deref(a[0])
+        new = list(reversed(v.items))
+        if isinstance(v, SliceV):
+            v.vec.items[v.lo:v.hi] = new
+        else:
+            v.items[:] = new
         return unit()
 
     @model("slice::join", "Join::join")
@@ -1583,9 +1628,11 @@ def register(eng):
             m.entries.append([a[1], False, None])
             i = len(m.entries) - 1
         e = m.entries[i]
+        # variant order differs: hash_map::Entry { Occupied, Vacant }, btree_map::Entry { Vacant, Occupied }
+        occ_idx, vac_idx = (1, 0) if m.ordered() else (0, 1)
         if eng.decide(e[1]):
-            return Agg("Entry", "Occupied", 0, [Agg("OccupiedEntry", None, 0, [m, i])])
-        return Agg("Entry", "Vacant", 1, [Agg("VacantEntry", None, 0, [m, i])])
+            return Agg("Entry", "Occupied", occ_idx, [Agg("OccupiedEntry", None, 0, [m, i])])
+        return Agg("Entry", "Vacant", vac_idx, [Agg("VacantEntry", None, 0, [m, i])])
 
     def entry_slot(ent):
         m, i = ent.fields[0].fields
